@@ -23,6 +23,7 @@ type Profile struct {
 	VTE                                     bool // tertiary DA reply "~VTE"
 	CursorStyleReply                        int  // -1: "invalid" DECRQSS reply (0$r), -2: no reply, n>=0: 1$r<n> q
 	NoDA1                                   bool
+	NoCPR                                   bool // never answers CSI 6n (cursor position report)
 	Rows, Cols                              int
 }
 
@@ -200,6 +201,9 @@ func (c *FakeConsole) reply(p []byte) {
 			return ""
 		}},
 		{"\x1b[6n", func() string {
+			if pr.NoCPR {
+				return ""
+			}
 			if pr.ExplicitWidth {
 				return "\x1b[1;2R"
 			}
